@@ -130,7 +130,7 @@ func checkC14(p *Prog, r *Report) {
 			default:
 				return
 			}
-			dst, _ := fieldBehind(c.Common().Args[0])
+			dst, _ := fieldBehind(unwrapPassThroughWriter(p, c.Common().Args[0]))
 			srcs, inTable := pipeSrcsOf(c.Common().Args[1], pipeFields)
 			if 0 == len(srcs) {
 				return
@@ -170,7 +170,7 @@ func checkC14(p *Prog, r *Report) {
 	for _, f := range withAnons(goFn) {
 		for _, cl := range findCopyLoops(f) {
 			srcs, _ := pipeSrcsOf(cl.Src, pipeFields)
-			dst, _ := fieldBehind(cl.Dst)
+			dst, _ := fieldBehind(unwrapPassThroughWriter(p, cl.Dst))
 			for which, pf := range pipeFields {
 				if !srcs[pf] {
 					continue
@@ -253,11 +253,17 @@ func checkC14(p *Prog, r *Report) {
 			/* Or: Go receives from the channel the reader closes when it
 			is done. */
 			if _, isChan := typeOfChan(rd.group); nil == join && isChan {
-				eachInstr(goFn, func(i ssa.Instruction) {
-					if u, ok := i.(*ssa.UnOp); ok && token.ARROW == u.Op && !u.CommaOk && resolveCell(u.X) == resolveCell(rd.group) {
-						join = i
+				/* As many receives as there are readers reporting on (or
+				closing) that channel. */
+				sharing := int64(0)
+				for _, o := range readers {
+					if nil != o.group && resolveCell(o.group) == resolveCell(rd.group) {
+						sharing++
 					}
-				})
+				}
+				if got, last := recvCount(goFn, rd.group, wait); got >= sharing && nil != last {
+					join = last
+				}
 			}
 			if nil == join {
 				rWait.Bad(c, posOf(rd.spawn), "the goroutine reading %s is never joined in Go", rd.field.Name())
@@ -610,5 +616,174 @@ func doneChanOf(f *ssa.Function) ssa.Value {
 			ch = resolveCell(resolveFree(c.Args[0]))
 		}
 	})
+	if nil != ch {
+		return ch
+	}
+	/* Or it reports on a channel: one send which every way out passes. */
+	eachInstr(f, func(i ssa.Instruction) {
+		sd, ok := i.(*ssa.Send)
+		if !ok {
+			return
+		}
+		all := true
+		eachInstr(f, func(j ssa.Instruction) {
+			if isReturn(j) && (nil == f.Recover || j.Block() != f.Recover) && !instrDominates(i, j) {
+				all = false
+			}
+		})
+		if all {
+			ch = stripConv(resolveCell(stripConv(resolveFree(stripConv(sd.Chan, false)), false)), false)
+		}
+	})
 	return ch
+}
+
+// recvCount: how many values Go itself is certain to have received from ch
+// by the time it reaches `before`: receives which dominate it, a receive in a
+// loop which runs a constant number of times counting that many.
+func recvCount(fn *ssa.Function, ch ssa.Value, before ssa.Instruction) (int64, ssa.Instruction) {
+	var n int64
+	var last ssa.Instruction
+	eachInstr(fn, func(i ssa.Instruction) {
+		u, ok := i.(*ssa.UnOp)
+		if !ok || token.ARROW != u.Op || stripConv(resolveCell(stripConv(u.X, false)), false) != stripConv(resolveCell(ch), false) || !instrDominates(i, before) {
+			return
+		}
+		k := int64(1)
+		/* In "for range K" (tested at the bottom: body first)? */
+		for _, b := range fn.Blocks {
+			if !b.Dominates(u.Block()) || 0 == len(b.Instrs) {
+				continue
+			}
+			for _, bi := range b.Instrs {
+				ph, isPhi := bi.(*ssa.Phi)
+				if !isPhi {
+					break
+				}
+				for e, pred := range b.Preds {
+					if !b.Dominates(pred) {
+						continue
+					}
+					add, isAdd := ph.Edges[e].(*ssa.BinOp)
+					ifi := blockIf(pred)
+					if !isAdd || token.ADD != add.Op || add.X != ssa.Value(ph) || nil == ifi {
+						continue
+					}
+					cmp, isCmp := ifi.Cond.(*ssa.BinOp)
+					if !isCmp || token.LSS != cmp.Op || cmp.X != ssa.Value(add) || pred.Succs[0] != b {
+						continue
+					}
+					if bound, isC := constInt(cmp.Y); isC && bound >= 1 && bound <= 16 && (u.Block() == b || b.Dominates(u.Block())) && (pred == u.Block() || u.Block().Dominates(pred)) {
+						k = bound
+					}
+				}
+			}
+		}
+		n += k
+		last = i
+	})
+	return n, last
+}
+
+// unwrapPassThroughWriter: v is a value of a module type whose Write hands
+// its argument, unchanged, to the Write of one of its fields and returns
+// exactly what that returned on every path (a byte counter, a tee for
+// diagnostics which only looks): what that field holds where v is made.
+// Anything else is returned as it is.
+func unwrapPassThroughWriter(p *Prog, v ssa.Value) ssa.Value {
+	for depth := 0; depth < 3; depth++ {
+		x := stripConv(resolveCell(v), false)
+		st, ok := x.Type().Underlying().(*types.Struct)
+		if !ok {
+			return v
+		}
+		ms := p.SSA.MethodSets.MethodSet(x.Type())
+		var wr *ssa.Function
+		for k := 0; k < ms.Len(); k++ {
+			if "Write" == ms.At(k).Obj().Name() {
+				wr = p.SSA.MethodValue(ms.At(k))
+			}
+		}
+		if nil == wr || nil == wr.Blocks || !inModule(wr) || 2 != len(wr.Params) {
+			return v
+		}
+		/* The one inner Write, on a field of the receiver, with our p. */
+		var inner *ssa.Call
+		field := -1
+		n := 0
+		eachInstr(wr, func(i ssa.Instruction) {
+			c, isCall := i.(*ssa.Call)
+			if !isCall || !c.Common().IsInvoke() || "Write" != c.Common().Method.Name() {
+				return
+			}
+			n++
+			if 1 != len(c.Common().Args) || resolveCell(c.Common().Args[0]) != ssa.Value(wr.Params[1]) {
+				return
+			}
+			recv := stripConv(resolveCell(c.Common().Value), false)
+			if f, isF := recv.(*ssa.Field); isF && resolveCell(f.X) == ssa.Value(wr.Params[0]) {
+				inner, field = c, f.Field
+			}
+			if u, isU := recv.(*ssa.UnOp); isU && token.MUL == u.Op {
+				if fa, isFA := u.X.(*ssa.FieldAddr); isFA {
+					if resolveCell(fa.X) == ssa.Value(wr.Params[0]) {
+						inner, field = c, fa.Field
+					} else if al, isAl := fa.X.(*ssa.Alloc); isAl {
+						/* The receiver spilled to a local. */
+						for _, s2 := range storesTo(al) {
+							if s2.Val == ssa.Value(wr.Params[0]) {
+								inner, field = c, fa.Field
+							}
+						}
+					}
+				}
+			}
+		})
+		if 1 != n || nil == inner || field < 0 || field >= st.NumFields() {
+			return v
+		}
+		okRet := true
+		eachInstr(wr, func(i ssa.Instruction) {
+			ret, isRet := i.(*ssa.Return)
+			if !isRet {
+				return
+			}
+			if 2 != len(ret.Results) {
+				okRet = false
+				return
+			}
+			for k, rv := range ret.Results {
+				for _, l := range phiLeaves(rv) {
+					ex, isEx := l.V.(*ssa.Extract)
+					if !isEx || ex.Tuple != ssa.Value(inner) || ex.Index != k {
+						okRet = false
+					}
+				}
+			}
+		})
+		if !okRet {
+			return v
+		}
+		/* What the field holds where the value is made. */
+		var held ssa.Value
+		switch y := x.(type) {
+		case *ssa.UnOp:
+			if al, isAl := y.X.(*ssa.Alloc); isAl && token.MUL == y.Op {
+				for _, ref := range *al.Referrers() {
+					if fa, isFA := ref.(*ssa.FieldAddr); isFA && fa.Field == field {
+						for _, r2 := range *fa.Referrers() {
+							if s2, isSt := r2.(*ssa.Store); isSt && s2.Addr == ssa.Value(fa) {
+								held = s2.Val
+							}
+						}
+					}
+				}
+			}
+		}
+		if nil == held {
+			return v
+		}
+		v = held
+	}
+	return v
 }
